@@ -346,6 +346,33 @@ func ExecPlan(cs *CiscoCase, p Plan, keepStates bool, stepwise bool) *Outcome {
 			return o
 		}
 		newR := routeDsts(n.Conf, sc)
+		// The statement does not cover edits to the membership of an
+		// object-group: ACLs that use such a group (before or after) are
+		// not judged.
+		edited := editedGroups(cs.A, p.Script)
+		skipACL := func(c *cisco.Conf, name string) bool {
+			acl := c.ACL(name)
+			if acl == nil {
+				return false
+			}
+			for g := range edited {
+				if aclUsesGroup(c, acl, g) {
+					return true
+				}
+			}
+			return false
+		}
+		skipB := map[binding]bool{}
+		for b, name := range bindings(cs.A, sc) {
+			if skipACL(cs.A, name) {
+				skipB[b] = true
+			}
+		}
+		for b, name := range bindings(n.Conf, sc) {
+			if skipACL(n.Conf, name) {
+				skipB[b] = true
+			}
+		}
 		idx := 0
 		for i, cmd := range p.Script {
 			endOfStep := i+1 == len(p.Script) || !p.Script[i+1].Joined
@@ -365,6 +392,9 @@ func ExecPlan(cs *CiscoCase, p Plan, keepStates bool, stepwise bool) *Outcome {
 					continue
 				}
 				cv, bound := curV[b]
+				if skipB[b] {
+					continue
+				}
 				// Suspend while a group referenced by this ACL is being edited.
 				if st.inEdit != "" && bound {
 					if acl := st.conf.ACL(bindings(st.conf, sc)[b]); acl != nil && aclUsesGroup(st.conf, acl, st.inEdit) {
@@ -389,7 +419,14 @@ func ExecPlan(cs *CiscoCase, p Plan, keepStates bool, stepwise bool) *Outcome {
 						o.Step = fmt.Sprintf(
 							"after step %d %q: packet %v on %s %s gets %d (line %d), old=new=%d",
 							i+1, cmd.Line, pk[j], b.iface, b.dir, cv[j], curL[b][j], ov[j])
-						o.StepKey = stepKind(p.Script, i) + "|" + dir
+						cls := "implicit-deny"
+						if ln := curL[b][j]; ln > 0 {
+							cls = lineClass(cs, st.conf, n.Conf, sc, b, ln)
+						}
+						o.StepKey = stepKind(p.Script, i) + "|" + cls + "|" + dir
+						if sharedOnDevice(cs.A, sc, b) {
+							o.StepKey = "shared-acl-on-device|" + dir
+						}
 						return o
 					}
 				}
@@ -503,4 +540,73 @@ func (c *Ctx) Recompare(cs *CiscoCase, conf *cisco.Conf, tp *tape.Tape) (string,
 func firstLine(s string) string {
 	l, _, _ := strings.Cut(strings.TrimSpace(s), "\n")
 	return l
+}
+
+// lineClass tells whether the entry that now matches first is still to be
+// deleted, was inserted ahead of time, or is common to old and new.
+func lineClass(cs *CiscoCase, cur, final *cisco.Conf, sc *cisco.Scope, b binding, ln int) string {
+	acl := cur.ACL(bindings(cur, sc)[b])
+	if acl == nil || ln > len(acl.Entries) {
+		return "?"
+	}
+	text := cisco.NormACE(cur.Kind, acl.Entries[ln-1].Text)
+	has := func(c *cisco.Conf) bool {
+		a := c.ACL(bindings(c, sc)[b])
+		if a == nil {
+			return false
+		}
+		for _, e := range a.Entries {
+			if cisco.NormACE(c.Kind, e.Text) == text {
+				return true
+			}
+		}
+		return false
+	}
+	inOld, inNew := has(cs.A), has(final)
+	switch {
+	case inOld && !inNew:
+		return "pending-delete"
+	case !inOld && inNew:
+		return "early-insert"
+	case inOld && inNew:
+		return "common"
+	}
+	return "transient"
+}
+
+// sharedOnDevice: the ACL bound at b is bound more than once on the device.
+func sharedOnDevice(a *cisco.Conf, sc *cisco.Scope, b binding) bool {
+	bs := bindings(a, sc)
+	n := 0
+	for _, name := range bs {
+		if name == bs[b] {
+			n++
+		}
+	}
+	return n > 1
+}
+
+// editedGroups lists the object-groups that exist on the device and whose
+// membership the script changes.
+func editedGroups(a *cisco.Conf, script []Cmd) map[string]bool {
+	res := map[string]bool{}
+	cur := ""
+	for _, c := range script {
+		l := c.Line
+		f := strings.Fields(l)
+		if len(f) >= 3 && f[0] == "object-group" {
+			cur = f[2]
+			continue
+		}
+		body := strings.TrimPrefix(l, "no ")
+		if cur != "" && (strings.HasPrefix(body, "network-object ") || strings.HasPrefix(body, "group-object ") ||
+			strings.HasPrefix(body, "port-object ") || strings.HasPrefix(body, "service-object ")) {
+			if a.Exists(cisco.Ref{Kind: "og", Name: cur}) {
+				res[cur] = true
+			}
+			continue
+		}
+		cur = ""
+	}
+	return res
 }
